@@ -323,6 +323,11 @@ func ruleI5(c *Ctx) {
 				c.ok(key, pos, r)
 				return
 			}
+			// a private helper all of whose callers are allowed sites
+			if r := allCallersAllowed(c.P, outermost(fn), 0); r != "" {
+				c.ok(key, pos, "private helper called only from: "+r)
+				return
+			}
 			// argument statically an Int? then no truncation can happen
 			if cal == n2i {
 				if mi, ok := call.Call.Args[0].(*ssa.MakeInterface); ok && qualType(mi.X.Type()) == "starlark.Int" {
@@ -428,19 +433,41 @@ func ruleI8(c *Ctx) {
 		if fnPkgPath(fn) != modPath+"/lib/math" || fn.Parent() != nil {
 			continue
 		}
-		calls := false
-		eachInstr(fn, func(in ssa.Instruction) {
-			if call, ok := in.(*ssa.Call); ok && call.Call.StaticCallee() == n2i {
-				calls = true
-			}
-		})
-		if !calls {
+		// built-ins (thread, builtin, args, kwargs) that reach NumberToInt, directly or through a private helper
+		if fn.Signature.Params().Len() != 4 {
+			continue
+		}
+		if !reachesStatic(fn, n2i, 6) {
 			continue
 		}
 		n++
 		key := fnName(fn) + ": int arguments stay exact"
 		viaFloat := false
 		intArm := false
+		region := []*ssa.Function{fn}
+		seenR := map[*ssa.Function]bool{fn: true}
+		for i := 0; i < len(region) && i < 8; i++ {
+			eachInstr(region[i], func(in ssa.Instruction) {
+				if ci, ok := in.(ssa.CallInstruction); ok {
+					if cal := ci.Common().StaticCallee(); cal != nil && cal.Blocks != nil && fnPkgPath(cal) == modPath+"/lib/math" && !seenR[cal] {
+						seenR[cal] = true
+						region = append(region, cal)
+					}
+				}
+			})
+		}
+		for _, rf := range region {
+			eachInstr(rf, func(in ssa.Instruction) {
+				if a, ok := in.(*ssa.Alloc); ok {
+					if _, tn := namedOf(deref(a.Type())); tn == "floatOrInt" {
+						viaFloat = true
+					}
+				}
+				if ta, ok := in.(*ssa.TypeAssert); ok && qualType(ta.AssertedType) == "starlark.Int" {
+					intArm = true
+				}
+			})
+		}
 		eachInstr(fn, func(in ssa.Instruction) {
 			if a, ok := in.(*ssa.Alloc); ok {
 				if _, tn := namedOf(deref(a.Type())); tn == "floatOrInt" {
@@ -463,4 +490,38 @@ func ruleI8(c *Ctx) {
 	if n < 2 {
 		c.anchorFail("only %d integer-valued math functions found", n)
 	}
+}
+
+// allCallersAllowed: fn is unexported and every static caller (transitively,
+// depth <= 3) is an allowed truncation site; returns the list of those sites.
+func allCallersAllowed(p *Prog, fn *ssa.Function, depth int) string {
+	if depth > 3 || fn.Object() == nil || fn.Object().Exported() {
+		return ""
+	}
+	callers := callersOf(p, fn)
+	if len(callers) == 0 {
+		return ""
+	}
+	seen := map[string]bool{}
+	for _, g := range callers {
+		top := outermost(g)
+		name := fnName(top)
+		if r, ok := i5Allowed[name]; ok && r != "" {
+			seen[name] = true
+			continue
+		}
+		if top == fn {
+			continue
+		}
+		sub := allCallersAllowed(p, top, depth+1)
+		if sub == "" {
+			return ""
+		}
+		seen[sub] = true
+	}
+	var l []string
+	for s := range seen {
+		l = append(l, s)
+	}
+	return strings.Join(l, ", ")
 }
